@@ -704,6 +704,8 @@ package rockredis
 // the batch is cleared on every path
 //@ func (db *RockDB) SAdd(ts int64, key []byte, args ...[]byte) (int64, error)
 //@   requires db != nil && db.wb != nil && ghost(wbputs, db.wb) == 0 && ghost(wbdels, db.wb) == 0
+// a member counted as new / removed must not already be buffered by this same command (reads see the store, not the batch)
+//@   callassert Put bst(arg0, ghost(wbver, arg0), kid(arg1)) == bst(arg0, old(ghost(wbver, db.wb)), kid(arg1))
 //@   ensures result1 == nil ==> result0 == ghost(misses, db) - old(ghost(misses, db)) && ghost(sizedelta, db) == result0
 //@   ensures result1 == nil && result0 > 0 ==> ghost(cputs, db.rockEng) >= result0 + 1 && ghost(newsize, db) >= result0
 //@   ensures result1 == nil ==> ghost(commits, db.rockEng) == old(ghost(commits, db.rockEng)) + 1
@@ -717,6 +719,8 @@ package rockredis
 // SREM: the reply and the size decrease are the number of members found in the store, each deleted once
 //@ func (db *RockDB) SRem(ts int64, key []byte, args ...[]byte) (int64, error)
 //@   requires db != nil && db.wb != nil && ghost(wbputs, db.wb) == 0 && ghost(wbdels, db.wb) == 0
+// a member counted as new / removed must not already be buffered by this same command (reads see the store, not the batch)
+//@   callassert Delete bst(arg0, ghost(wbver, arg0), kid(arg1)) == bst(arg0, old(ghost(wbver, db.wb)), kid(arg1))
 //@   ensures result1 == nil && len(args) > 0 ==> result0 == ghost(hits, db) - old(ghost(hits, db)) && ghost(sizedelta, db) == -result0
 //@   ensures result1 == nil && len(args) > 0 ==> ghost(commits, db.rockEng) == old(ghost(commits, db.rockEng)) + 1 && ghost(cdels, db.rockEng) >= result0
 //@   ensures len(args) == 0 ==> result0 == 0 && result1 == nil && ghost(commits, db.rockEng) == old(ghost(commits, db.rockEng))
@@ -816,6 +820,8 @@ package rockredis
 // ZADD: reply and size growth are the number of members the store did not have; ZREM: the number it had
 //@ func (db *RockDB) ZAdd(ts int64, key []byte, args ...common.ScorePair) (int64, error)
 //@   requires db != nil && db.wb != nil && ghost(wbputs, db.wb) == 0 && ghost(wbdels, db.wb) == 0
+// a member counted as new / removed must not already be buffered by this same command (reads see the store, not the batch)
+//@   callassert zSetItem bst(arg5, ghost(wbver, arg5), zmKid(arg1, arg2, arg4)) == bst(arg5, old(ghost(wbver, db.wb)), zmKid(arg1, arg2, arg4))
 //@   ensures result1 == nil && len(args) > 0 ==> result0 == ghost(misses, db) - old(ghost(misses, db)) && ghost(sizedelta, db) == result0
 //@   ensures result1 == nil && len(args) > 0 ==> ghost(commits, db.rockEng) == old(ghost(commits, db.rockEng)) + 1
 //@   ensures len(args) == 0 ==> result0 == 0 && result1 == nil && ghost(commits, db.rockEng) == old(ghost(commits, db.rockEng))
@@ -827,6 +833,8 @@ package rockredis
 //@   invariant (len(keyInfo.OldHeader.UserData) == 0 || len(keyInfo.OldHeader.UserData) >= 8) && setSize(keyInfo.OldHeader.UserData) >= 0 && setSize(keyInfo.OldHeader.UserData) < 4611686018427387904
 //@ func (db *RockDB) ZRem(ts int64, key []byte, members ...[]byte) (int64, error)
 //@   requires db != nil && db.wb != nil && ghost(wbputs, db.wb) == 0 && ghost(wbdels, db.wb) == 0
+// a member counted as new / removed must not already be buffered by this same command (reads see the store, not the batch)
+//@   callassert zDelItem bst(arg4, ghost(wbver, arg4), zmKid(arg1, arg2, arg3)) == bst(arg4, old(ghost(wbver, db.wb)), zmKid(arg1, arg2, arg3))
 //@   ensures result1 == nil && len(members) > 0 ==> result0 == ghost(hits, db) - old(ghost(hits, db)) && ghost(sizedelta, db) == -result0
 //@   ensures result1 == nil && len(members) > 0 ==> ghost(commits, db.rockEng) == old(ghost(commits, db.rockEng)) + 1 && ghost(cdels, db.rockEng) >= 2 * result0
 //@   ensures len(members) == 0 ==> result0 == 0 && result1 == nil && ghost(commits, db.rockEng) == old(ghost(commits, db.rockEng))
